@@ -156,7 +156,15 @@ def detect_structs(d):
         if _layer(a["path"]) == "core" and a["path"].split("::")[-1] in ("QoS", "VarSizeInt", "NonZero", "UTF8String", "Binary") and a["path"].count("::") == 2 \
                 and not a["path"].startswith("core::base_types::"):
             out["adts"][a["path"]] = "core::base_types::" + a["path"].split("::")[-1]
-    # the two halves of the framing layer, wherever in the io layer they live (`io::tx_stream::TxPacketStream`)
+    # packet types of the codec layer that live in a child module of their packet's module (`codec::publish::tx::PublishTx`):
+    # the rules name them `codec::<packet>::<Type>`
+    have = {a["path"] for a in d["adts"]}
+    for a in d["adts"]:
+        parts = a["path"].split("::")
+        if _layer(a["path"]) == "codec" and len(parts) > 3 and re.search(r"(Tx|Rx|TxBuilder|RxBuilder|Reason|TxBuilderError|RxBuilderError)$", parts[-1]):
+            canon = "::".join(parts[:2] + parts[-1:])
+            if canon not in have:
+                out["adts"][a["path"]] = canon
     for a in d["adts"]:
         if a["kind"] != "struct" or _layer(a["path"]) != "io":
             continue
